@@ -348,6 +348,20 @@ func visitInstr(fr *frame, instr ssa.Instruction) continuation {
 		if ln < 0 || cp < ln {
 			panic(runtimeErr("runtime error: makeslice: len out of range"))
 		}
+		if fr.i.x.allocLimit >= 0 {
+			// a size that is concrete on this path but was derived from the (mutated) input: same bound
+			es := fr.i.sizes.Sizeof(tElt)
+			if es < 1 {
+				es = 1
+			}
+			if cp > goMaxAlloc/es {
+				panic(runtimeErr("runtime error: makeslice: len out of range"))
+			}
+			if cp > fr.i.x.allocLimit/es {
+				fr.i.x.assert("alloc-bounded:"+shortSite(fr.i.prog.Fset.Position(instr.Pos()).String()), false)
+				panic(pathEnd{kind: endOutside, msg: "allocation beyond the policy bound is not executed"})
+			}
+		}
 		if cp > maxAlloc {
 			fr.i.x.bigAlloc(instr, cp)
 		}
@@ -572,6 +586,9 @@ func callSSA(i *interpreter, caller *frame, callpos token.Pos, fn *ssa.Function,
 		fn:     fn,
 	}
 	name := fn.String()
+	if len(i.callStack) > maxCallDepth {
+		panic(pathEnd{kind: endLimit, msg: "call depth limit"})
+	}
 	i.callStack = append(i.callStack, name)
 	defer func() {
 		if r := recover(); r != nil {
